@@ -67,7 +67,7 @@ class SolvedBlock(Block, Parent):
                 # TODO: replace this with default option
                 kwargs['solver'] = self.solver
 
-        return self.block.solve_steady_state(calibration, unknowns, self.targets, options, **kwargs)
+        return self.block.solve_steady_state(calibration, unknowns, self.targets, dissolve=dissolve, options=options, **kwargs)
 
     def _impulse_nonlinear(self, ss, inputs, outputs, internals, Js, options, ss_initial, **kwargs):
         return self.block.solve_impulse_nonlinear(ss, OrderedSet(self.unknowns), OrderedSet(self.targets),
